@@ -38,6 +38,10 @@ CHECKS = {
          "Lower-case codings and q only (the stated domain); a coding listed twice admits either occurrence.", "differential testing vs. reference model: exhaustive enumeration + proptest", "6/C16"),
  "C17": ("exploration", "streaming_body built from generated Accept-Encoding x level 0..9 x chunk size x method x Request/Parts; oracle ties the Content-Encoding header to should_gzip && level>0 and to the actual coding of the drained body (own gzip decoder), plus Vary and writer presence.",
          "gzip level within the documented 0..=9.", "property-based testing (proptest) + enumerated core, header <-> body consistency oracle", "6/C17"),
+ "C18": ("fault_enumeration", "Real files: every boundary-aligned range of 7 file sizes read through get_range and through serve(), with the file truncated to each interesting length before each poll index (every truncation point x every poll), growth after construction, random sizes/ranges/truncations by proptest; metadata and ETag under re-open, four mtime changes, append, same-length same-mtime replacement; non-regular files. Oracle: std::fs bytes and Metadata, non-empty chunks, error instead of a short clean end, harness-owned poll budget.",
+         "Sandbox filesystem semantics (ext4), running as root. ETag difference demanded only when std::fs::Metadata reports the change.", "fault enumeration (truncation point x poll index) + differential vs. std::fs + proptest", "6/C18"),
+ "C19": ("exploration", "Exhaustive path enumeration (1-4 segments over 10 segment kinds, leading/trailing slash, NUL injection) x 5 Accept-Encoding values x auto_gzip on/off against a generated directory tree with .gz siblings, a .gz directory, dot-heavy names, and a secret file outside the base reachable only through a symlink. Oracle: reference path validator + std::fs device/inode identity or equal io::ErrorKind + reference gzip negotiation.",
+         "Empty path checked for containment only. Symlinks are followed as documented.", "differential testing vs. reference model and std::fs: exhaustive enumeration", "6/C19"),
  "C20": ("exploration", "Every body explored by the other engines polled 1-4 more times after each kind of terminal event (clean end, entity error, too short, too long) at every fault position of the C07 enumeration: no panic, no data.",
          "Entity streams are fused (the statement's proviso).", "property-based testing + exhaustive fault enumeration with extra polls", "6/C20"),
 }
